@@ -172,6 +172,8 @@ pub struct NodeTrace {
     pub conn_at_disc: Vec<(bool, i32)>,
     /// buffer sizes at the end of the run (same layout as max_sizes)
     pub final_sizes: Vec<usize>,
+    /// iteration orders of the registry maps right after the session was built
+    pub iter_orders: Vec<Vec<String>>,
     /// largest peak of live heap bytes above the level at call entry, over all API calls
     pub peak_alloc: usize,
 }
@@ -759,6 +761,11 @@ pub fn run<C: HCfg>(scn: &Scenario, devs: &Devs, opt: &RunOpt) -> ExecResult {
         return finish(nodes, cx, &net, 0, None, 0, 0, 1_000_000);
     }
 
+    for n in nodes.iter_mut() {
+        if let Sess::P(s) = &n.sess {
+            n.tr.iter_orders = s.verif_iteration_orders();
+        }
+    }
     let mut round: i32 = 0;
     let mut sync_rounds = 0;
     // ---- handshake phase (not under test): poll until everyone is Running
@@ -922,6 +929,7 @@ fn new_node<C: HCfg>(sess: Sess<C>, addr: Addr, is_spec: bool, window: usize, sc
             conn: Vec::new(),
             conn_at_disc: Vec::new(),
             final_sizes: Vec::new(),
+            iter_orders: Vec::new(),
             peak_alloc: 0,
         },
         dead: false,
